@@ -547,6 +547,16 @@ func (w *stWorld) publish(msg []byte) {
 	w.regChan <- msg
 }
 
+// register publishes a client's registration when the ingest pipeline is idle
+// and waits until it has been digested. (The pipeline drops messages when no
+// worker is free - by design, see C09 - so a director that wants a registration
+// to be processed offers it to an idle pipeline.)
+func (w *stWorld) register(msg []byte) {
+	w.settle()
+	w.publish(msg)
+	w.settle()
+}
+
 // settle parks the calling director until the system has nothing left to do at this instant.
 func (w *stWorld) settle() { hook.ParkIdle("settle") }
 
@@ -627,6 +637,8 @@ type segConn struct {
 	pending []byte
 	pauses  []time.Duration
 	k       int
+	// tailCuts: distances from the end of the first flight (known when the client starts to read)
+	tailCuts []int
 }
 
 func (s *segConn) flushTo(n int) error {
@@ -662,7 +674,26 @@ func (s *segConn) Write(p []byte) (int, error) {
 	return len(p), nil
 }
 
-func (s *segConn) Flush() error { return s.flushTo(len(s.pending)) }
+func (s *segConn) Flush() error {
+	if len(s.tailCuts) > 0 {
+		tc := append([]int(nil), s.tailCuts...)
+		s.tailCuts = nil
+		sort.Sort(sort.Reverse(sort.IntSlice(tc)))
+		total := len(s.pending)
+		done := 0
+		for _, d := range tc {
+			at := total - d
+			if at <= done || at >= total {
+				continue
+			}
+			if err := s.flushTo(at - done); err != nil {
+				return err
+			}
+			done = at
+		}
+	}
+	return s.flushTo(len(s.pending))
+}
 
 func (s *segConn) Read(p []byte) (int, error) {
 	if err := s.Flush(); err != nil {
